@@ -646,14 +646,16 @@ def germanic(c, T, PATS, units, fixed, tens, scales, conj, zero, lemma_of, infl,
 
     def add(w, cls, digits, n=0, desc=None):
         mk = marker if is_ord(lemma_of(w)) else None
-        rows.append({"word": w, "cls": cls, "digits": digits, "n": n, "marker": mk, "expect": (digits + (mk or "")) if digits else None,
-                     "desc": desc or f"{cls} {digits}" + (f", marker `{mk}`" if mk else "")})
+        shown = digits + "0" if cls == "ten" else digits     # a ten is stored as its tens digit; alone it reads d0
+        rows.append({"word": w, "cls": cls, "digits": digits, "n": n, "marker": mk, "expect": (shown + (mk or "")) if digits else None,
+                     "desc": desc or f"{cls} {shown}" + (f", marker `{mk}`" if mk else "")})
     add(zero, "zero", "0")
     for d, (cards, ordw) in units.items():
         for w in cards:
             add(w, "unit", d)
             if c == "de" and w == "eine":
                 rows[-1]["props"] = "C01"    # the feminine form only matters for "eine Million / Milliarde"
+                rows[-1]["known_finding"] = True
         for w in infl(ordw):
             add(w, "unit", d)
     for d, (cw, ordw) in fixed.items():
